@@ -165,6 +165,9 @@ class L2Faults:
         self.fired = []
         self.selected_cuts = 0
         self.candidate_cuts = True
+        self._gens = None
+        self._epoch_serial = 0
+        self._cand_cut_in_epoch = False
 
     def events(self):
         if self.budget <= 0:
@@ -175,12 +178,23 @@ class L2Faults:
                   if l is not None)
         live = [l for l in w.sim.net.links
                 if l.up and any(e.alive and e.made for e in l.ends)]
+        # candidates of the newest generation: links made since the newest
+        # generation began on either side
+        gens = tuple(s.m._next_dilation_generation for s in w.sides)
+        if gens != self._gens:
+            self._gens = gens
+            self._epoch_serial = max([l.serial for l in w.sim.net.links] + [0])
+            self._cand_cut_in_epoch = False
+        fresh = [l for l in live if l.serial > self._epoch_serial and
+                 all(e.alive or not e.made for e in l.ends)]
         for link in live:
             sel = id(link) in cur
-            if not sel and (len(live) < 2 or not self.candidate_cuts):
+            if not sel:
                 # losing a non-selected candidate is only in scope as long as
-                # another candidate survives
-                continue
+                # another candidate of that generation survives
+                if not self.candidate_cuts or self._cand_cut_in_epoch or \
+                        link not in fresh or len(fresh) < 2:
+                    continue
             mult = 6 if sel else 1
             if "cut" in self.kinds:
                 evs.append(("cut:%d" % link.serial,
@@ -199,6 +213,9 @@ class L2Faults:
         self.budget -= 1
         self.fired.append((self.w.sim.steps, "cut" if len(tell) == 2 else
                            "half_open_" + tell[0], link.serial, sel))
+        if not sel:
+            self._cand_cut_in_epoch = True
+            self.w.sim.note("probe.candidate_link_cut")
         if sel:
             self.selected_cuts += 1
             self.w.sim.note("probe.selected_link_cut")
